@@ -292,7 +292,7 @@ func runC19(ctx *vh.Ctx) error {
 	if err := c19wRun(ctx); err != nil {
 		return err
 	}
-	n := ctx.N(900, 20000)
+	n := ctx.N(2500, 20000)
 	for i := 0; i < n && ctx.TimeLeft(); i++ {
 		var g *gcase.Graph
 		if ctx.Rng.Chance(75) {
